@@ -213,7 +213,7 @@ class RefHex(Refdom):
     def on_facet(cls, i, X):
         if i == 0:
             return ((X[1] > 0)
-                    * (X[2] < 1)
+                    * (X[1] < 1)
                     * (X[2] < 1)
                     * (X[2] > 0)
                     * (X[0] < 1+1e-4)
@@ -248,7 +248,7 @@ class RefHex(Refdom):
                     * (X[2] > -1e-4))
         elif i == 5:
             return ((X[1] > 0)
-                    * (X[2] < 1)
+                    * (X[1] < 1)
                     * (X[2] < 1)
                     * (X[2] > 0)
                     * (X[0] < 1e-4)
